@@ -208,7 +208,7 @@ func runC05(r *Report) {
 	// ---- R-C05-6 JSON null cannot nil a pointer that is then dereferenced ---------------
 	nNull := 0
 	for _, g := range r.P.Funcs {
-		for _, nd := range nullDecodes(g) {
+		for _, nd := range nullDecodes(r.P, g) {
 			nNull++
 			pos := nd.call
 			if nd.bad != token.NoPos {
@@ -407,7 +407,25 @@ func readErrorLeavesLoop(ci ssa.CallInstruction) (bool, string) {
 			continue
 		}
 		x, trueMeansNil, ok := NilTest(bo)
-		if !ok || x != errv || bo.Referrers() == nil {
+		if !ok {
+			// comparison with a sentinel (`err == io.EOF`): the equal edge is an error edge too; a
+			// stream that has ended keeps answering EOF, so re-reading from it never terminates
+			if (bo.Op == token.EQL || bo.Op == token.NEQ) && (bo.X == errv || bo.Y == errv) && bo.Referrers() != nil {
+				for _, u := range *bo.Referrers() {
+					if iff, isIf := u.(*ssa.If); isIf {
+						eqSucc := iff.Block().Succs[0]
+						if bo.Op == token.NEQ {
+							eqSucc = iff.Block().Succs[1]
+						}
+						if eqSucc == ci.Block() || CanReachBlock(eqSucc, ci.Block()) {
+							return false, "the edge on which the error equals a sentinel (end of stream) can reach the same read again (spin on a dead stream)"
+						}
+					}
+				}
+			}
+			continue
+		}
+		if x != errv || bo.Referrers() == nil {
 			continue
 		}
 		for _, u := range *bo.Referrers() {
@@ -638,7 +656,7 @@ type nullDecode struct {
 
 // nullDecodes lists the json.Unmarshal calls of g whose destination is **T (JSON null stores a
 // nil *T) together with a dereference of that variable that is not under a non-nil test.
-func nullDecodes(g *ssa.Function) []nullDecode {
+func nullDecodes(pr *Prog, g *ssa.Function) []nullDecode {
 	var out []nullDecode
 	for _, um := range Calls(g, false, "json:Unmarshal") {
 		mi, ok := Arg(um, 1).(*ssa.MakeInterface)
@@ -663,6 +681,40 @@ func nullDecodes(g *ssa.Function) []nullDecode {
 					continue
 				}
 				for _, use := range *ld.Referrers() {
+					// the possibly-nil pointer is handed back to the callers (`return req, nil`): every
+					// caller's dereference of that result needs the nil test
+					if ret, isRet := use.(*ssa.Return); isRet && pr != nil && CanReachBlock(um.Block(), ret.Block()) {
+						for j, rv := range ret.Results {
+							if rv != ssa.Value(ld) {
+								continue
+							}
+							for _, site := range staticCallSites(pr, g) {
+								var got ssa.Value = site
+								if g.Signature.Results().Len() > 1 {
+									got = extractOf(site, j)
+								}
+								if got == nil || got.Referrers() == nil {
+									continue
+								}
+								for _, u2 := range *got.Referrers() {
+									fa2, isFA := u2.(*ssa.FieldAddr)
+									if !isFA {
+										continue
+									}
+									guarded := false
+									for _, ft := range Facts(fa2.Block()) {
+										if x, isnil, ok := ft.FactNil(); ok && !isnil && stripValue(x) == stripValue(got) {
+											guarded = true
+										}
+									}
+									if !guarded {
+										nd.bad = fa2.Pos()
+									}
+								}
+							}
+						}
+						continue
+					}
 					fa, isFA := use.(*ssa.FieldAddr)
 					if !isFA || !CanReachBlock(um.Block(), fa.Block()) {
 						continue
@@ -764,7 +816,7 @@ func sizeBounded(pr *Prog, at *ssa.BasicBlock, size ssa.Value, depth int) bool {
 	}
 	p := wireDerived(size)
 	if p == nil {
-		return true
+		return false // neither a constant nor a parameter: a value decoded here, with no bound in sight
 	}
 	for _, ft := range Facts(at) {
 		bo, isB := ft.Cond.(*ssa.BinOp)
